@@ -58,6 +58,9 @@ struct ConnPlan {
     dgrams: u32,
     explicit_close: bool,
     parked: bool,
+    /// the client endpoint moves to another socket this long after connecting (0: port only,
+    /// 1: another address)
+    rebind: Option<(Ns, u32)>,
 }
 
 #[derive(Default)]
@@ -72,6 +75,8 @@ struct Results {
     labels: Vec<(String, Arc<Mutex<String>>)>,
     server_conns_done: u32,
     open_conns_at_end: Vec<usize>,
+    /// clients whose main task has run to its end
+    clients_done: u32,
     cancels: u64,
     /// connections whose client has begun to end them (errors are expected from then on)
     closing: std::collections::BTreeSet<u32>,
@@ -92,6 +97,9 @@ struct Results {
     reset_plan: BTreeMap<(u32, u64), u32>,
     /// (conn, stream) -> the reader saw the reset
     reset_seen: std::collections::BTreeSet<(u32, u64)>,
+    /// clients whose server connection has completed its handshake (from then on the server
+    /// accepts a migration)
+    server_ready: std::collections::BTreeSet<u32>,
 }
 
 type Res = Arc<Mutex<Results>>;
@@ -415,6 +423,33 @@ async fn client_main(sim: Sim, res: Res, lbl: Lbl, ep: Endpoint, cfg: quinn::Cli
             return;
         }
     };
+    if let Some((after, kind)) = plan.rebind {
+        let (s2, ep2, r2) = (sim.clone(), ep.clone(), res.clone());
+        spawn(&sim, &res, format!("client{}-rebind", ci), move |l| {
+            Box::pin(async move {
+                // a client must not change its address before the handshake is confirmed (the
+                // server discards packets from another address until it has completed it)
+                l.set("waiting for the server's handshake to complete");
+                let mut nap = MS;
+                while !r2.lock().unwrap().server_ready.contains(&ci) {
+                    if ep2.open_connections() == 0 {
+                        l.set("done");
+                        return;
+                    }
+                    sleep(&s2, nap).await;
+                    nap = (nap * 2).min(500 * MS);
+                }
+                l.set("waiting to rebind");
+                sleep(&s2, after).await;
+                let addr = if kind == 0 { cfgs::addr(1 + ci, 500) } else { cfgs::addr(60 + ci, 0) };
+                if ep2.rebind_abstract(s2.socket(addr)).is_ok() {
+                    s2.with(|s| s.faults.hit("endpoint_rebind"));
+                }
+                drop(ep2);
+                l.set("done");
+            })
+        });
+    }
     let (tx, mut rx) = tokio::sync::mpsc::unbounded_channel::<()>();
     let mut expected = 0;
     for (si, p) in plan.streams.iter().cloned().enumerate() {
@@ -529,6 +564,7 @@ async fn client_main(sim: Sim, res: Res, lbl: Lbl, ep: Endpoint, cfg: quinn::Cli
     ep.wait_idle().await;
     res.lock().unwrap().open_conns_at_end.push(ep.open_connections());
     drop(ep);
+    res.lock().unwrap().clients_done += 1;
     lbl.set("done");
 }
 
@@ -661,7 +697,10 @@ async fn server_main(sim: Sim, res: Res, lbl: Lbl, ep: Endpoint, n_conns: u32, a
                         Box::pin(async move {
                             l.set("Incoming await");
                             match inc.await {
-                                Ok(conn) => server_conn(s3, r3, l, conn, ci, resp).await,
+                                Ok(conn) => {
+                                    r3.lock().unwrap().server_ready.insert(ci);
+                                    server_conn(s3, r3, l, conn, ci, resp).await
+                                }
                                 Err(_) => {}
                             }
                             let _ = tx3.send(());
@@ -673,11 +712,18 @@ async fn server_main(sim: Sim, res: Res, lbl: Lbl, ep: Endpoint, n_conns: u32, a
         });
     }
     drop(tx);
-    for _ in 0..n_conns {
-        lbl.set("wait for connections to end");
-        if rx.recv().await.is_none() {
+    // The server goes away once every client is done. (Counting finished server connections
+    // is not enough: a late duplicate of a client's Initial gives rise to a second Incoming whose
+    // handshake fails at once.)
+    let _ = &mut rx;
+    let mut nap = MS;
+    loop {
+        lbl.set("wait for the clients to finish");
+        if res.lock().unwrap().clients_done >= n_conns {
             break;
         }
+        sleep(&sim, nap).await;
+        nap = (nap * 2).min(500 * MS);
     }
     lbl.set("Endpoint::close + wait_idle()");
     ep.close(VarInt::from_u32(0), b"");
@@ -709,13 +755,21 @@ fn draw_plan(ch: &mut Chooser, big: bool) -> ConnPlan {
             s.reset_after = None;
         }
     }
-    ConnPlan { streams, dgrams: if ch.chance("c18.dgrams", 1, 2) { ch.range("c18.n_dgrams", 1, 20) as u32 } else { 0 }, explicit_close: ch.chance("c18.explicit_close", 1, 2), parked: ch.chance("c18.parked", 1, 2) }
+    ConnPlan { streams, dgrams: if ch.chance("c18.dgrams", 1, 2) { ch.range("c18.n_dgrams", 1, 20) as u32 } else { 0 }, explicit_close: ch.chance("c18.explicit_close", 1, 2), parked: ch.chance("c18.parked", 1, 2), rebind: None }
 }
 
 fn run(mut ch: Chooser, ctx: &RunCtx, faults: bool, big: bool) -> RunOut {
     cfgs::seed_tls(mix(&[0xA5, 18]));
     let n_clients = 1 + ch.choose("c18.n_clients", 3);
-    let plans: Vec<ConnPlan> = (0..n_clients).map(|_| draw_plan(&mut ch, big)).collect();
+    let mut plans: Vec<ConnPlan> = (0..n_clients).map(|_| draw_plan(&mut ch, big)).collect();
+    if faults {
+        // Endpoint::rebind: the endpoint driver swaps sockets under the connections' feet
+        for p in plans.iter_mut() {
+            if ch.chance("c18.rebind", 1, 4) {
+                p.rebind = Some((ch.range_log("c18.rebind_us", 1, 3_000_000) * 1000, ch.choose("c18.rebind_kind", 2)));
+            }
+        }
+    }
     let knobs_s = if ch.chance("c18.default_knobs", 1, 2) { TKnobs::default() } else { TKnobs::draw(&mut ch) };
     let knobs_c = if ch.chance("c18.default_knobs_c", 1, 2) { TKnobs::default() } else { TKnobs::draw(&mut ch) };
     let mut ks = knobs_s.clone();
